@@ -19,6 +19,12 @@ class ClassRef:
 
 def make_hook(prog: Program, extra: Callable[[ast.Call, Evaluator], Any] = None):
     def instantiate(ci: ClassInfo, args: List[Any], kwargs: Dict[str, Any], ev: Evaluator) -> Any:
+        if hook.enum_kind(ci) and len(args) == 1:
+            for name in ci.attrs:
+                m = hook.enum_member(ci, name)
+                if (m if hook.enum_kind(ci) == "int" else m.value) == args[0]:
+                    return m
+            raise Raised("ValueError", ast.Constant(value=None))
         obj = SimpleNamespace(__cls__=ci)
         init = prog.find_method(ci, "__init__")
         if init is not None:
@@ -148,7 +154,38 @@ def make_hook(prog: Program, extra: Callable[[ast.Call, Evaluator], Any] = None)
                     return run_method(m, base, a, k)
         return NotImplemented
 
+    enum_members: Dict[Any, Any] = {}
+
+    def enum_kind(ci: ClassInfo) -> Optional[str]:
+        for c in prog.mro(ci):
+            for b in c.base_exprs:
+                n = b.attr if isinstance(b, ast.Attribute) else getattr(b, "id", "")
+                if n in ("IntEnum", "IntFlag"):
+                    return "int"
+                if n in ("Enum", "Flag"):
+                    return "obj"
+        return None
+
+    def enum_member(ci: ClassInfo, attr: str) -> Any:
+        """IntEnum members are modelled by their int value, Enum members by one object per member (identity equality)."""
+        if attr not in ci.attrs:
+            return NotImplemented
+        val = Evaluator(prog, ci.module, ci).ev(ci.attrs[attr])
+        if enum_kind(ci) == "int":
+            return val
+        key = (ci.qualname, attr)
+        if key not in enum_members:
+            enum_members[key] = SimpleNamespace(__cls__=ci, name=attr, value=val)
+        return enum_members[key]
+
+    def resolve(r: Any) -> Any:
+        if r[0] == "class":
+            return ClassRef(r[1])
+        return NotImplemented
+
     def get_attr(base: Any, attr: str) -> Any:
+        if isinstance(base, ClassRef) and enum_kind(base.ci):
+            return enum_member(base.ci, attr)
         if isinstance(base, SimpleNamespace) and hasattr(base, "__cls__"):
             m = prog.find_method(base.__cls__, attr)
             if m is not None and m.kind == "property":
@@ -164,6 +201,9 @@ def make_hook(prog: Program, extra: Callable[[ast.Call, Evaluator], Any] = None)
         return str(v)
 
     hook.getattr = get_attr  # type: ignore
+    hook.resolve = resolve  # type: ignore
+    hook.enum_kind = enum_kind  # type: ignore
+    hook.enum_member = enum_member  # type: ignore
     hook.to_str = to_str  # type: ignore
     hook.instantiate = instantiate  # type: ignore
     hook.run_method = run_method  # type: ignore
